@@ -16,7 +16,7 @@ import (
 func init() {
 	register(&Property{
 		ID:      "C11",
-		Explain: "Chunking independence and buffer lifetime of both handshakes, decided structurally. (1) readLine is folded on chunking scripts (one chunk, \\n and \\r\\n terminators, lines split by bufio.ErrBufferFull into two and three chunks with the terminator in either chunk, EOF mid-line) with the bufio buffer clobbered at every ReadSlice: the returned line is always the concatenation of the chunks minus the terminator - a partial chunk that was not copied shows up as clobbered bytes. (2) In the folds of Upgrader.Upgrade and Dialer.Upgrade (shared with C09/C10) the pooled bufio.Reader is touched only by readLine / Buffered / Put, every slice of a line (request line, uri, header key and value) is dead before the next readLine recycles the buffer and none is returned; the reads never go past the blank line. (3) I/O buffer sizes are nonZero(configured, default). (4) Debug wrappers: every bytes/strings.Index* result is compared with -1 before it is used as a bound or in arithmetic. NOT decided: that dialer and upgrader reach the same outcome for every configuration pair and that the debug wrappers report exactly the bytes exchanged - both need the two sides to run. config-read-only for the debug wrappers (they have pointer receivers and must work on a copy of the embedded Dialer / Upgrader); debug-upgrader-passthrough: the reader handed to the inner Upgrader replays the sniffed bytes and then continues with the connection itself. head-end-index: headEndIndex is evaluated on every byte string over {a, CR, LF} up to length 7 against the line-end definition of the handshake parser. The debug wrappers reach the wrapped handshake on every path (every return is dominated by the call). sniff-snapshot-after-drain: in the functions that sniff through an io.TeeReader, no read through the tee is reachable (CFG) from a Bytes() snapshot of the sniff buffer. The parse helpers and the dial layering (the user's WrapConn wraps the outermost, i.e. the TLS, connection) are part of this check. debug-dialer-wrap: the WrapConn hook DebugDialer.Dial installs is folded with and without a user WrapConn, OnRequest, OnResponse: the connection it remembers (and Dial returns and re-points the buffered reader at) and the one embedded in what the handshake runs on are both the user's wrapped connection. debug-dialer-rebind: every (*bufio.Reader).Reset in DebugDialer.Dial (or a helper only it calls) sits on the OnResponse != nil side of a test of that field - without the sniffed bytes a reset throws away what the dialer buffered. The HTTP upgrader table and the request / response writers run here as well. In every tee of written bytes the connection is the first writer (MultiWriter stops at the first failure, so the copy holds what the transport took). prefetch-length-measured runs here as well.",
+		Explain: "Chunking independence and buffer lifetime of both handshakes, decided structurally. (1) readLine is folded on chunking scripts (one chunk, \\n and \\r\\n terminators, lines split by bufio.ErrBufferFull into two and three chunks with the terminator in either chunk, EOF mid-line) with the bufio buffer clobbered at every ReadSlice: the returned line is always the concatenation of the chunks minus the terminator - a partial chunk that was not copied shows up as clobbered bytes. (2) In the folds of Upgrader.Upgrade and Dialer.Upgrade (shared with C09/C10) the pooled bufio.Reader is touched only by readLine / Buffered / Put, every slice of a line (request line, uri, header key and value) is dead before the next readLine recycles the buffer and none is returned; the reads never go past the blank line. (3) I/O buffer sizes are nonZero(configured, default). (4) Debug wrappers: every bytes/strings.Index* result is compared with -1 before it is used as a bound or in arithmetic. NOT decided: that dialer and upgrader reach the same outcome for every configuration pair and that the debug wrappers report exactly the bytes exchanged - both need the two sides to run. config-read-only for the debug wrappers (they have pointer receivers and must work on a copy of the embedded Dialer / Upgrader); debug-upgrader-passthrough: the reader handed to the inner Upgrader replays the sniffed bytes and then continues with the connection itself. head-end-index: headEndIndex is evaluated on every byte string over {a, CR, LF} up to length 7 against the line-end definition of the handshake parser. The debug wrappers reach the wrapped handshake on every path (every return is dominated by the call). sniff-snapshot-after-drain: in the functions that sniff through an io.TeeReader, no read through the tee is reachable (CFG) from a Bytes() snapshot of the sniff buffer. The parse helpers and the dial layering (the user's WrapConn wraps the outermost, i.e. the TLS, connection) are part of this check. debug-dialer-wrap: the WrapConn hook DebugDialer.Dial installs is folded with and without a user WrapConn, OnRequest, OnResponse: the connection it remembers (and Dial returns and re-points the buffered reader at) and the one embedded in what the handshake runs on are both the user's wrapped connection. debug-dialer-rebind: every (*bufio.Reader).Reset in DebugDialer.Dial (or a helper only it calls) sits on the OnResponse != nil side of a test of that field - without the sniffed bytes a reset throws away what the dialer buffered. The HTTP upgrader table and the request / response writers run here as well. In every tee of written bytes the connection is the first writer (MultiWriter stops at the first failure, so the copy holds what the transport took). prefetch-length-measured runs here as well. debug-dialer-wrap also decides the gating: the response is sniffed exactly when OnResponse is set and the request teed exactly when OnRequest is. negotiate-extensions (shared by both upgraders) and prefetch-keeps-source (whatever prefetchResponseReader installs as its reader ends in the connection it was given) run here.",
 		Trusted: []string{"go/ssa + go/types", "the checker's abstract evaluator", "bufio.Reader.ReadSlice invalidates its result at the next read (documented)"},
 		Assume:  []string{"agreement of the two peers for all configuration pairs is not decided"},
 		Run: func(c *Ctx) {
